@@ -71,11 +71,13 @@ DECL = re.compile(r"^\s*static\s+(?!inline\b|__inline)((?:(?!\().)*?)\s*(=|;)", 
 def static_decls(src, objs):
     """`static` object declarations (file scope or inside functions) left after preprocessing,
     from the file's own lines: [(file, name, is_const)]"""
-    out = []
-    for o in objs:
+    from concurrent.futures import ThreadPoolExecutor
+
+    def one(o):
+        out = []
         cfile = o[:-2] + ".c"
         if not os.path.exists(os.path.join(src, cfile)):
-            continue
+            return out
         p = subprocess.run(["gcc", "-E", "-std=c99"] + DEFS + [cfile], cwd=src, capture_output=True, text=True)
         if p.returncode != 0:
             raise Infra("gcc -E %s failed: %s" % (cfile, p.stderr[:800]))
@@ -105,7 +107,10 @@ def static_decls(src, objs):
             else:
                 is_const = "const" in toks
             out.append((cfile, name, is_const))
-    return out
+        return out
+    with ThreadPoolExecutor(8) as ex:
+        res = list(ex.map(one, objs))
+    return [x for r in res for x in r]
 
 
 def assigned_anywhere(src, names):
